@@ -539,6 +539,21 @@ pub fn explore(plan: &Plan, sum: &mut Summary, only: Option<&Damage>) -> Vec<Hit
                         .max()
                         .map(|x| x.1.trim_matches('"').to_string())
                         .unwrap_or_else(|| "structure".into());
+                    if field == "latest_snapshot" {
+                        // what the damaged MANIFEST now says about the snapshot: nothing, a file that exists, a file that does not
+                        let now = dimg2.names.get(&name).and_then(|i| dimg2.inodes.get(i)).cloned().unwrap_or_default();
+                        let ptr = match serde_json::from_slice::<serde_json::Value>(&now).ok().and_then(|v| v.get("latest_snapshot").cloned()) {
+                            Some(serde_json::Value::String(n)) => {
+                                if dimg2.names.contains_key(&n) {
+                                    "names_another_existing_file"
+                                } else {
+                                    "names_a_missing_file"
+                                }
+                            }
+                            _ => "none",
+                        };
+                        facts.insert("snapshot_pointer_after_flip".into(), ptr.into());
+                    }
                     facts.insert("manifest_field".into(), field);
                 }
                 if mech.ends_with("other_snapshot_used") {
